@@ -101,6 +101,10 @@ func main() {
 	rand.Seed(c.Seed)
 
 	r := new(runner.Runner).Init()
+	if path := os.Getenv("BENCHRUN_DIGEST"); path != "" {
+		dg := attachDigester(r, path, c.Unified)
+		defer dg.write()
+	}
 	b := build(r, &c)
 	r.AddBenchmark(b)
 	r.Run()
